@@ -2,12 +2,12 @@ SPECIFICATION Spec
 CONSTANTS
   N = 3
   Cls = "perm-ss"
-  Gates <- GatesP3
+  Gates <- GatesS3
   NewParams <- NewParamsC
-  Queries <- QueriesP3
-  MaxDepth = 4
+  Queries <- QueriesS3
+  MaxDepth = 5
   Record = FALSE
-  Deviations <- NoDev
+  Deviations <- DevExpecCopy
   ConeIgnoresSwap = FALSE
 VIEW view
 INVARIANT RejectClean
